@@ -35,7 +35,7 @@ SHRINK = {'C03': (60, 25), 'C02': (60, 40)}
 WALL_LIMIT = {('C03', 'quick'): 240, ('C03', 'thorough'): 3000, ('C02', 'quick'): 240, ('C02', 'thorough'): 240}      # one re-execution = ~20 forked crawls
 PROBES = {'C03': ['kill_points_total', 'kill_at_sql', 'kill_at_commit', 'kill_at_request', 'kill_at_delivery', 'kill_before_first_request',
                   'kill_with_in_progress_rows', 'kill_between_status_and_children', 'second_kill', 'resumed_runs', 'concurrency>1',
-                  'workload_fully_enumerated', 'run2_refetch_of_in_progress', 'database_uri', 'sitemaps', 'sitemaps_skipped_start', 'ftp_crawl', 'transient_errors', 'kill_with_error_rows']}
+                  'workload_fully_enumerated', 'run2_refetch_of_in_progress', 'database_uri', 'sitemaps', 'sitemaps_skipped_start', 'ftp_crawl', 'transient_errors', 'kill_with_error_rows', 'many_input_urls', 'kill_during_input_import']}
 INFO = {'C03': {
     'rule': 'workload = generated site graph (as C01, depth unlimited) x concurrency 1..3 x schedule; per workload the kill instants '
             '(every SQL statement boundary, every commit boundary, every server request, every delivered segment) are enumerated '
@@ -255,6 +255,18 @@ def run(tape, prop, tier):
                 else:
                     starts = [go] + list(starts) if tape.chance(1, 2, 'sm.go.first') else list(starts) + [go]
                 r.probes['sitemaps_skipped_start'] += 1
+        argv_urls = None
+        if prop == 'C03' and not ftp and tape.chance(1, 8, 'many_inputs'):
+            # more than 1000 input URLs: they are imported in batches of 1000, one transaction each (the first 1000 here are
+            # one URL repeated - legal, and cheap to crawl); a kill can land between two batches
+            extra_starts = [p for p in pages if p not in starts and p.origin.key() == starts[0].origin.key()][:tape.between(1, 3, 'many_inputs.extra')]
+            if extra_starts:
+                pad = tape.choice((1000, 999, 1001, 2000), 'many_inputs.pad')
+                argv_urls = [starts[0].url] * pad + [p.url for p in extra_starts]
+                starts = list(starts) + extra_starts
+                r.probes['many_input_urls'] += 1
+        if argv_urls is None:
+            argv_urls = [s.url for s in starts]
         site.finalize()
         concurrency = tape.choice((1, 2, 3), 'concurrency')
         if concurrency > 1:
@@ -285,7 +297,7 @@ def run(tape, prop, tier):
         # a schedule = a recorded tape: run 0 generates it (seeded), the killed runs replay it
         sb0 = sandbox_for('run0')
         db0 = os.path.join(sb0, 'db.sqlite')
-        argv0 = crawl.argv_for(opts, [s.url for s in starts], db0)
+        argv0 = crawl.argv_for(opts, argv_urls, db0)
         # run 0: uninterrupted, counts the instants; it uses a generated tape whose values we record through a file
         sched_tape = Tape(sched_seed)
         os.chdir(sb0)
@@ -316,7 +328,12 @@ def run(tape, prop, tier):
         else:
             positions = sorted({1 + (x % N) for x in ksel[:5]} | {first_req + (ksel[5] % max(1, N - first_req))} |
                                {min(N, _after_nth_commit(kinds, ksel[6]))} | {min(N, _after_nth_commit(kinds, ksel[7]) + 1)})
-        workload = {'options': {k: v for k, v in opts.items() if v not in (None, False, ())}, 'starts': [s.url for s in starts],
+        if len(argv_urls) > 100 and tier != 'thorough' and prop == 'C03':
+            # the import of the input URLs happens before the first request: put kills at its commit boundaries
+            early = [i + 1 for i, kk in enumerate(kinds[:first_req]) if kk == 'commit']
+            positions = sorted(set(positions) | set(early[-8:]) | {min(N, x + 1) for x in early[-8:]})
+            r.probes['kill_during_input_import'] += len([x for x in positions if x < first_req])
+        workload = {'options': {k: v for k, v in opts.items() if v not in (None, False, ())}, 'starts': [s.url for s in starts], 'input_urls': len(argv_urls),
                     'concurrency': concurrency, 'instants': N, 'positions': positions if tier != 'thorough' else 'all',
                     'site': [(x.kind, x.url, [d.url for d, _ in x.links], [d.url for d, _, _ in x.inlines]) for x in site.order]}
         if ftp:
@@ -326,7 +343,7 @@ def run(tape, prop, tier):
         for k in positions:
             sb = sandbox_for('k%d' % k)
             db = os.path.join(sb, 'db.sqlite')
-            argv = crawl.argv_for(opts, [s.url for s in starts], db)
+            argv = crawl.argv_for(opts, argv_urls, db)
             os.chdir(sb)
             code = fork_run(values, site, argv, concurrency, sb, os.path.join(sb, 'req1.log'), os.path.join(sb, 'result1.json'), k)
             kind = kinds[k - 1] if k - 1 < len(kinds) else 'end'
